@@ -2,7 +2,14 @@
 
 package datapath
 
-import "net"
+import (
+	"net"
+
+	"github.com/vishvananda/netlink"
+
+	"github.com/AliyunContainerService/terway/plugin/driver/nic"
+	"github.com/AliyunContainerService/terway/plugin/driver/types"
+)
 
 // VerifDstIPRule exposes the classifier key built by dstIPRule.
 func VerifDstIPRule(ip *net.IPNet) (off int32, val, mask uint32, err error) {
@@ -12,3 +19,33 @@ func VerifDstIPRule(ip *net.IPNet) (off int32, val, mask uint32, err error) {
 	}
 	return r.offset, r.value, r.mask, nil
 }
+
+// ---- C13: the declarative per-link configuration generators ---------------------------------------------
+
+// VerifContCfg returns the container-side configuration of datapath dp (0 policy-route veth, 1 ipvlan,
+// 2 exclusive ENI, 3 vlan) for cfg on a link with the given index.
+func VerifContCfg(dp int, cfg *types.SetupConfig, linkIndex int, mac net.HardwareAddr) *nic.Conf {
+	link := &netlink.Dummy{LinkAttrs: netlink.LinkAttrs{Index: linkIndex, Name: cfg.ContainerIfName}}
+	switch dp {
+	case 0:
+		return generateContCfgForPolicy(cfg, link, mac)
+	case 1:
+		return generateContCfgForIPVlan(cfg, link)
+	case 2:
+		return generateContCfgForExclusiveENI(cfg, link)
+	default:
+		return generateContCfgForVlan(cfg, link)
+	}
+}
+
+// VerifHostCfg returns the host-side configurations of the policy-route datapath: host veth peer and ENI.
+func VerifHostCfg(cfg *types.SetupConfig, vethIndex, eniIndex, table int) (*nic.Conf, *nic.Conf) {
+	veth := &netlink.Dummy{LinkAttrs: netlink.LinkAttrs{Index: vethIndex, Name: cfg.HostVETHName}}
+	eni := &netlink.Dummy{LinkAttrs: netlink.LinkAttrs{Index: eniIndex, Name: "eni"}}
+	return GenerateHostPeerCfgForPolicy(cfg, veth, table), GenerateENICfgForPolicy(cfg, eni, table)
+}
+
+const (
+	VerifToContainerPriority   = toContainerPriority
+	VerifFromContainerPriority = fromContainerPriority
+)
